@@ -362,7 +362,11 @@ class Executor:
             return self.lazy_tab[k]
         if isinstance(v, Sym):
             # C-like enum held as scalar
-            return z3.ZeroExt(64 - v.t.size(), v.t) if v.t.size() < 64 else v.t
+            if z3.is_bool(v.t):
+                return z3.If(v.t, z3.BitVecVal(1, 64), z3.BitVecVal(0, 64))
+            if v.t.size() < 64:
+                return z3.SignExt(64 - v.t.size(), v.t) if v.ty in SIGNED else z3.ZeroExt(64 - v.t.size(), v.t)
+            return v.t
         raise Inconclusive(f"discriminant of {v!r}")
 
     def discr_range(self, v):
